@@ -1,17 +1,64 @@
 //! Harness binary `h_gs_b <PROP> --seed S --tier T [--count N] [--replay F]`.
 //! One module per property (`cNN.rs`, `pub fn run(args: &hcore::Args, out: &mut hcore::Out)`).
+mod c32;
+mod c33;
+
+/// Virtual monotonic clock. Unlike `hcore::install_clock!()` (real clock + offset) this one is
+/// FROZEN: `CLOCK_MONOTONIC` reads exactly `BASE_SECS` seconds + `hcore::CLOCK_OFFSET_NS`, so that
+/// `Instant::now()` inside the gossipsub caches is a pure function of the op sequence. The
+/// properties checked here compare instants at exact boundaries (`expires > now`,
+/// `backoff + slack > now`); with a ticking clock those comparisons would depend on scheduling.
+/// `hcore::warp` still moves the time (it adds to the same offset).
+pub const BASE_SECS: i64 = 1_000_000;
+
+extern "C" {
+    fn __clock_gettime(clk: i32, ts: *mut [i64; 2]) -> i32;
+}
+
+#[no_mangle]
+pub unsafe extern "C" fn clock_gettime(clk: i32, ts: *mut [i64; 2]) -> i32 {
+    if clk == 1 {
+        let off = hcore::CLOCK_OFFSET_NS.load(std::sync::atomic::Ordering::SeqCst);
+        let t = &mut *ts;
+        t[0] = BASE_SECS + (off / 1_000_000_000) as i64;
+        t[1] = (off % 1_000_000_000) as i64;
+        return 0;
+    }
+    __clock_gettime(clk, ts)
+}
+
+/// set the virtual time to `now` nanoseconds after the (per-case) start
+pub fn set_now(now: u64) {
+    let cur = hcore::CLOCK_OFFSET_NS.load(std::sync::atomic::Ordering::SeqCst);
+    if now >= cur {
+        hcore::warp(std::time::Duration::from_nanos(now - cur));
+    } else {
+        // a new case starts: fresh objects, the clock restarts at the base
+        hcore::CLOCK_OFFSET_NS.store(now, std::sync::atomic::Ordering::SeqCst);
+    }
+}
+
+/// greatest `Instant` representable on this platform (`tv_sec: i64`, `tv_nsec < 10^9`), in
+/// nanoseconds after the base
+pub fn instant_limit_ns() -> u128 {
+    (i64::MAX as u128 - BASE_SECS as u128) * 1_000_000_000 + 999_999_999
+}
+
+pub fn dur(ns: u128) -> std::time::Duration {
+    std::time::Duration::new((ns / 1_000_000_000) as u64, (ns % 1_000_000_000) as u32)
+}
 
 fn main() {
     let args = hcore::Args::parse();
     hcore::quiet_panics();
     let mut out = hcore::Out::new();
     match args.prop.as_str() {
+        "C32" => c32::run(&args, &mut out),
+        "C33" => c33::run(&args, &mut out),
         p => {
-            let _ = &mut out;
             eprintln!("h_gs_b: unknown property {p}");
             std::process::exit(2);
         }
     }
-    #[allow(unreachable_code)]
     out.flush();
 }
